@@ -600,7 +600,8 @@ impl World for WorldT {
                 TOp::Approve { from, spender, .. } | TOp::TransferFrom { from, spender, .. } | TOp::BurnFrom { from, spender, .. } => {
                     *from = 2 + (*from % 2);
                     if *spender as usize % NP != STRANGER {
-                        *spender = 4 + (*spender % 2);
+                        // mostly two dedicated spenders; sometimes the holder itself (aliasing)
+                        *spender = if (*spender as usize * 7 + *from as usize * 3) % 11 == 0 { *from } else { 4 + (*spender % 2) };
                     }
                 }
                 _ => {}
